@@ -170,7 +170,11 @@ def execute(case: dict) -> dict:
         holders: dict = {}  # actor -> borrower key
         inprog: dict = {}  # actor -> start seq
         oblig: list = []  # (earlier actor, later actor, deadline cycle)
-        box.update(h=h, res=res, holders=holders, inprog=inprog, st=st)
+        box.update(h=h, res=res, st=st)
+        h.abort_marks.append(
+            lambda: box.update(holders=dict(holders), inprog=dict(inprog), free=free(),
+                               total=(st["permits"] if is_sem else res.total_tokens))  # fmt: skip
+        )
 
         def nwaiting() -> int:
             return res.statistics().tasks_waiting
@@ -458,15 +462,13 @@ def execute(case: dict) -> dict:
         run(main, config=case["cfg"], info=info)
     except Deadlock:
         box["h"].apply_freeze()
-        res, inprog = box["res"], box["inprog"]
+        inprog = box["inprog"]
         live = [a.name for a in inprog if not a.cancel_issued]
-        free_now = res.value if is_sem else res.available_tokens
+        free_now = box["free"]
         if live and free_now > 0:
             viol.append(("deadlock:live-waiter-with-free-permit",
                          {"waiters": live, "free": free_now}))  # fmt: skip
-        elif live and not box["holders"] and (
-            (is_sem and box["st"]["permits"] > 0) or (not is_sem and res.total_tokens > 0)
-        ):
+        elif live and not box["holders"] and box["total"] > 0:
             # nobody holds anything, permits exist, yet a live waiter is stuck: leaked
             viol.append(("deadlock:permit-leaked", {"waiters": live, "free": free_now}))
         else:
